@@ -44,6 +44,10 @@ type Config struct {
 	Eras []int // eras to draw from (statekit.Era values, repeated = weight)
 	// Kinds adjusts the generator after the defaults were installed.
 	Kinds func(g *statekit.Gen, era statekit.Era)
+	// Done is called at the end of the case (undo per-generator registrations).
+	Done func(g *statekit.Gen)
+	// Profile adjusts the drawn profile.
+	Profile func(t *rapid.T, p *statekit.Profile, era statekit.Era)
 }
 
 type history struct {
@@ -67,12 +71,12 @@ type run struct {
 	dumps map[uint32]*obs
 	base  uint32 // lowest rollback target
 
-	roundChg, crChg           bool
+	roundChg, crChg            bool
 	maxDepth, rollbacks, forks int
-	kindsInRange              int
-	known                     bool
-	otherSide                 int
-	dead                      string
+	kindsInRange               int
+	known                      bool
+	otherSide                  int
+	dead                       string
 }
 
 func (r *run) render() any { return r.hist }
@@ -129,6 +133,19 @@ func (r *run) compare(clause string, h uint32, got, want *obs) (clean, ok bool) 
 		df := (&canon.Differ{}).First(v.a, v.b)
 		if df == nil {
 			continue
+		}
+		// m[k] = 0 (or an empty inner map) left behind by a "+= / -=" rollback
+		// where the direct build has no entry is one finding, whatever the map
+		if lenient := (&canon.Differ{ZeroEntryAbsent: true}).First(v.a, v.b); lenient == nil {
+			detail := fmt.Sprintf("height %d: %s%s = %s, direct build has %s", h, v.name, df.Path, df.A, df.B)
+			if !vk.Report(r.t, r.cfg.Prop+":"+clause+":zero-valued-map-entry-left-behind", detail, r.render()) {
+				return false, false
+			}
+			r.known = true
+			// behaviourally equal: no resynchronisation needed
+			return true, true
+		} else {
+			df = lenient
 		}
 		sig := r.cfg.Prop + ":" + clause + ":" + v.name + df.Sig()
 		detail := fmt.Sprintf("height %d: %s%s = %s, direct build has %s", h, v.name, df.Path, df.A, df.B)
@@ -220,6 +237,11 @@ func (r *run) rebuild() {
 func Run(t *rapid.T, cfg Config) {
 	era := statekit.Era(rapid.SampledFrom(cfg.Eras).Draw(t, "era"))
 	prof := statekit.DrawProfile(t, era)
+	// RecordSponsor transactions are not modelled by the block builder
+	prof.RecordSponsorStart = statekit.Far
+	if cfg.Profile != nil {
+		cfg.Profile(t, &prof, era)
+	}
 	k := statekit.New(prof)
 	r := &run{cfg: cfg, t: t, k: k, hist: &history{Profile: prof, Era: era.String()}, dumps: map[uint32]*obs{}}
 	defer func() { r.k.Close() }()
@@ -230,6 +252,9 @@ func Run(t *rapid.T, cfg Config) {
 	}
 	if cfg.Kinds != nil {
 		cfg.Kinds(r.g, era)
+	}
+	if cfg.Done != nil {
+		defer cfg.Done(r.g)
 	}
 	// heights below VoteStart do not touch either state
 	k.StartAt(prof.VoteStart - 1)
@@ -245,6 +270,10 @@ func Run(t *rapid.T, cfg Config) {
 		last = prof.DPoSV2Start
 	}
 	span := 30
+	if era == statekit.EraV2 {
+		// staking, voting and the activation of DPoS 2.0 need room
+		span = 50
+	}
 	if cfg.Side == CR {
 		// a whole committee term
 		span = int(prof.DutyPeriod) + 12
